@@ -212,7 +212,10 @@ class YPPrologVisitor(prologVisitor):
 
     def _debug(self,*args):
         if self.context.debug_parser:
-            self.context.outf.write('# ' + " ".join([str(a) for a in args]) + '\n')
+            msg = " ".join([str(a) for a in args])
+            # the message may contain line breaks (quoted atoms): every line is a comment
+            for line in msg.splitlines() or ['']:
+                self.context.outf.write('# ' + line + '\n')
 
     def visitProgram(self,ctx):
         clauses = {}
